@@ -362,6 +362,13 @@ def gen_twins(rng):
             both(dict(op='copy', h=cur, out=nxt))
             cur = nxt
             nxt += 1
+            if rng.random() < 0.4:
+                # type conversion of both twins: the same valid set and values whatever the storage kind
+                both(dict(op='astype', h=cur, out=nxt, dtype=rng.choice(['i4', 'f8', 'b', 'i2']), sentinel=None))
+                hist.append(gens2.chk(nxt, ['values', 'cov', 'valid', 'nvalid']))
+                hist.append(gens2.chk(nxt + 100, ['values', 'cov', 'valid', 'nvalid']))
+                hist.append(dict(op='sameas', h=nxt, ref=nxt + 100, what='astype of a bit-packed map and of its ordinary boolean twin differ'))
+                nxt += 1
         elif r < 0.92:
             pixels = None
             if rng.random() < 0.4:
